@@ -15,7 +15,10 @@ PROFILES = {
     "arista": ("arista", "Arista DCS-7368", "no", "exit"),
     "h3c": ("h3c", "H3C S6800", "undo", "quit"),
     "nexus": ("nexus", "Cisco Nexus 9336", "no", "exit"),
+    # a flattening vendor: one `set ...` / `delete ...` line per command (judged by Device.ExecAllFlat)
+    "juniper": ("juniper", "Juniper MX960", "delete", ""),
 }
+FLAT = {"juniper"}
 
 LOGIC_PARAM = {"undo_redo": "common.undo_redo", "permanent": "common.permanent", "ignore_changes": "common.ignore_changes"}
 
@@ -118,7 +121,8 @@ class Catalog:
         from annet.annlib.rbparser.ordering import compile_ordering_text
         from annet.rulebook.deploying import compile_deploying_text
         for e in self.entries:
-            self.rbs.append({"prefix": self.prefix, "exit": self.exit, "name": e["name"], "rules": strip_inst(e["rules"])})
+            self.rbs.append({"prefix": self.prefix, "exit": self.exit, "name": e["name"], "rules": strip_inst(e["rules"]),
+                             "flat": profile in FLAT})
             text = "\n".join(rule_text(e["rules"])) + "\n"
             self.compiled.append({"patching": compile_patching_text(text, self.vendor),
                                   "ordering": compile_ordering_text("", self.vendor),
